@@ -38,7 +38,12 @@ func VH_C07_plan_pipeline() {
 	n := vrt.Len("stages", 0, 3)
 	var wantFragments []string
 	for i := 0; i < n; i++ {
-		switch vrt.Choice("stage-kind", 3) {
+		switch vrt.Choice("stage-kind", 4) {
+		case 3:
+			// a stage that needs the joined labels (planned in SQL): everything after it filters the joined rows
+			sel.Pipelines = append(sel.Pipelines, logql_parser.StrSelectorPipeline{Drop: &logql_parser.Drop{Fn: "drop",
+				Params: []logql_parser.DropParam{{Label: logql_parser.LabelName{Name: "pod"}}}}})
+			wantFragments = append(wantFragments, "'pod'")
 		case 0:
 			sel.Pipelines = append(sel.Pipelines, vpLabelStage("env", "prod"))
 			wantFragments = append(wantFragments, "'env'", "'prod'")
@@ -61,5 +66,11 @@ func VH_C07_plan_pipeline() {
 		vrt.Assert(strings.Contains(text, f), "every-pipeline-stage-takes-effect")
 	}
 	vrt.Assert(strings.Contains(text, "LIMIT 10"), "limit-passed-through")
+	// the limit cuts the rows that passed EVERY stage: it appears once, after the last stage's condition
+	vrt.Assert(strings.Count(text, "LIMIT") == 1, "limit-applied-once")
+	last := strings.Index(text, "LIMIT")
+	for _, f := range wantFragments {
+		vrt.Assert(strings.LastIndex(text, f) < last || strings.Index(text, f) < 0, "limit-applied-after-every-stage")
+	}
 	vrt.Reach("end")
 }
